@@ -17,6 +17,9 @@ Clause(v) ==
       ELSE IF v.exc # "none" THEN <<"C15.NoRaise", "update() raised " \o v.exc \o " with several frames waiting">>
       ELSE IF v.left > 0 THEN <<"C15.DropShort", "a received payload was neither consumed nor discarded: it stays in the RX FIFO and blocks the frames behind it">>
       ELSE IF v.dt > v.bound THEN <<"C15.Bounded", ToString(v.dt) \o " us">>
+      \* one update() call serves at most one answer that waits (first hop + route time-out, sent at most twice), however
+      \* many frames wait behind it
+      ELSE IF v.dtmax > v.ubound THEN <<"C15.Bounded", "a single update() took " \o ToString(v.dtmax) \o " us with several frames waiting">>
       ELSE IF v.queued > nGood THEN <<"C15.DropInvalid", "more frames queued than valid frames received">>
       ELSE IF nGood = 0 /\ v.ntx # 0 THEN <<"C15.DropInvalid", "only short / invalid frames received but something was transmitted">>
       ELSE IF \E i \in 1..Len(v.sent) : Len(v.sent[i]) > 32 \/ Bad(v.sent[i]) THEN <<"C15.DropInvalid", "a frame with invalid addresses was transmitted">>
